@@ -8,6 +8,9 @@ def jobs(ctx):
 
 
 def nontrivial(l):
+    if l.startswith("N "):
+        f = dict(w.split("=", 1) for w in l.split()[1:] if "=" in w)
+        return ("N", f.get("cfg"), tuple((f.get(f"hay{c}"), f.get(f"atoms{c}")) for c in range(int(f.get("k", "0")))))
     if not l.startswith("S "):
         return None
     f = dict(w.split("=", 1) for w in l.split()[1:] if "=" in w)
@@ -18,13 +21,14 @@ def nontrivial(l):
 
 def run(ctx):
     return core.simple_check(
-        ctx, jobs, distribution=core.field_distribution(("S ",), ["cfg", "hr", "pre"], numeric=()),
+        ctx, jobs, distribution=core.field_distribution(("S ", "N "), ["cfg", "hr", "pre", "k"], numeric=()),
         rule="seeded random: a haystack, a pattern of 0-3 atoms of every kind and polarity built from pieces of the haystack (so most match; one case in 300 has 1300-2000 matching atoms, a total "
              "beyond 65535), parsed under a "
              "random CaseMatching x Normalization; one Matcher shared by all cases (its flags are whatever the previous atom left); Pattern::score, "
-             "Pattern::indices, every Atom::score/indices, and Pattern::match_list over up to 5 items with duplicates and ties; distinct non-trivial = "
+             "Pattern::indices, every Atom::score/indices, and Pattern::match_list over up to 5 items with duplicates and ties; after every third case a MultiPattern of 1-3 columns (every subset of the columns has a "
+             "pattern, so empty columns stand in front of non-empty ones; column texts differ) scored with MultiPattern::score against each column's own Pattern::score; distinct non-trivial = "
              "distinct (config, haystack, atoms) with a non-empty pattern and haystack",
-        nontrivial=nontrivial, correspondence="Model/Pattern.lean (Atom.eval, patternEval, matchList) ~ matcher/src/pattern.rs",
+        nontrivial=nontrivial, correspondence="Model/Pattern.lean (Atom.eval, patternEval, matchList, multiEval) ~ matcher/src/pattern.rs, src/pattern.rs (MultiPattern::score)",
         assumptions=["the matcher calls themselves are covered by C01-C05; here they are compared through the same model"])
 
 
